@@ -46,6 +46,9 @@ inductive CExpr where
   | post (v : String) (ty : CT) (op : String)       -- v++ / v-- on a local variable
   | call (name : String) (args : List CExpr) (ret : CT) (params : List CT)   -- registered sub-routine
   | stmtexpr (ty : CT) (v : String) (e : CExpr)     -- ({ T v = e; v; })
+  -- ({ name(exts…, args…); val; }): a void sub-routine call statement, then the value `val` (any expression);
+  -- `exts` are the pass-through tokens (`bundle`, `HEX_REG_FIELD_USR_OVF`), `args` the value arguments
+  | seqexpr (name : String) (exts : List String) (args : List CExpr) (params : List CT) (val : CExpr)
 deriving Repr, Inhabited
 
 inductive CStmt where
@@ -59,12 +62,19 @@ inductive CStmt where
   | skip (what : String)                            -- ";" "{}" "cancel_slot;"
   | exprstmt (e : CExpr)                            -- e;  (value unused)
   | ret (e : CExpr)                                 -- return e;  (sub-routine bodies, last statement)
+  -- name(exts…, args…);  a call of a registered sub-routine with return type void, used as a statement
+  | vcall (name : String) (exts : List String) (args : List CExpr) (params : List CT)
 deriving Repr, Inhabited
 
 /-! ### decoding from S-expressions -/
 
 def ctOfSexp : Sexp → Option CT
   | .list [s, w] => do let s ← s.asBool?; let w ← w.asNat?; pure { signed := s, width := w }
+  | _ => none
+
+def strsOfSexps : List Sexp → Option (List String)
+  | [] => some []
+  | .str s :: xs => do let ss ← strsOfSexps xs; pure (s :: ss)
   | _ => none
 
 def regKindOfString : String → Option RegKind
@@ -98,6 +108,10 @@ def CExpr.ofSexp : Sexp → Option CExpr
       let args ← CExpr.ofSexps args; let ret ← ctOfSexp ret; let ps ← params.mapM ctOfSexp
       pure (.call n args ret ps)
   | .list [.atom "stmtexpr", t, .str v, e] => do let t ← ctOfSexp t; let e ← CExpr.ofSexp e; pure (.stmtexpr t v e)
+  | .list [.atom "seqexpr", .str n, .list exts, .list args, .list params, v] => do
+      let exts ← strsOfSexps exts; let args ← CExpr.ofSexps args; let ps ← params.mapM ctOfSexp
+      let v ← CExpr.ofSexp v
+      pure (.seqexpr n exts args ps v)
   | _ => none
 def CExpr.ofSexps : List Sexp → Option (List CExpr)
   | [] => some []
@@ -121,6 +135,9 @@ def CStmt.ofSexp : Sexp → Option CStmt
   | .list [.atom "skip", .str w] => some (.skip w)
   | .list [.atom "exprstmt", e] => do let e ← CExpr.ofSexp e; pure (.exprstmt e)
   | .list [.atom "ret", e] => do let e ← CExpr.ofSexp e; pure (.ret e)
+  | .list [.atom "vcall", .str n, .list exts, .list args, .list params] => do
+      let exts ← strsOfSexps exts; let args ← CExpr.ofSexps args; let ps ← params.mapM ctOfSexp
+      pure (.vcall n exts args ps)
   | _ => none
 def CStmt.ofSexps : List Sexp → Option (List CStmt)
   | [] => some []
